@@ -12,7 +12,7 @@ from .refmodel import RefState, ref_build, ref_clean
 LEVEL = 'model_checking'
 BUDGET_S = {'quick': 150, 'thorough': 1500}
 BOUNDS = {
-    'quick': '2 worker threads on the root builder, pre-emption bound 1, yield point = every environment call the library makes '
+    'quick': '2 worker threads on the root builder, pre-emption bound 1 (2 for the same-dir, one-fails and deep-shared scenarios), yield point = every environment call the library makes '
              '(isfile/isdir/stat/listdir/mkdir/rename/remove/open/...) and every lock acquire; scenarios: two outputs in one new '
              'directory, in nested new directories, in directories left by the previous build, one worker failing, a worker that '
              'builds inside a subbuild; directories d and d/a symbolic (absent / directory / with foreign content)',
@@ -49,6 +49,9 @@ def families(tier):
         {'name': 'in-subbuild', 'params': {'P': 1, 'hist': 'BT', 'reuse': True}, 'weight': 1},
         {'name': 'nested-dirs', 'params': {'P': 1, 'hist': 'BT'}, 'weight': 1},
         {'name': 'one-fails', 'params': {'P': 1, 'hist': 'BT'}, 'weight': 1},
+        {'name': 'same-dir', 'params': {'P': 2, 'hist': 'T'}, 'weight': 2},
+        {'name': 'one-fails', 'params': {'P': 2, 'hist': 'T'}, 'weight': 2},
+        {'name': 'deep-shared', 'params': {'P': 2, 'hist': 'T'}, 'weight': 2},
     ]
     if tier == 'quick':
         return q
